@@ -30,6 +30,9 @@ CONFIGS = {
     # tiny shards: the session shard is flushed at almost every registration (concurrent-cleaning storms)
     "S": dict(BASE, HF_XET_MAX_XORB_CHUNKS="3", HF_XET_MAX_XORB_BYTES="100000", HF_XET_MDB_SHARD_MIN_TARGET_SIZE="300",
               HF_XET_NRANGES_IN_STREAMING_FRAGMENTATION_ESTIMATOR="128"),
+    # several users with separate local shard caches, connected only by the store's global dedup index
+    "U": dict(BASE, HF_XET_MAX_XORB_CHUNKS="4", HF_XET_MAX_XORB_BYTES="1000", HF_XET_NRANGES_IN_STREAMING_FRAGMENTATION_ESTIMATOR="2",
+              HF_XET_MDB_SHARD_GLOBAL_DEDUP_CHUNK_MODULUS="3"),
     "E": {"HF_XET_TARGET_CHUNK_SIZE": "256", "HF_XET_MAX_XORB_CHUNKS": "3", "HF_XET_MAX_XORB_BYTES": "4096",
           "HF_XET_NRANGES_IN_STREAMING_FRAGMENTATION_ESTIMATOR": "128"},
 }
@@ -51,7 +54,7 @@ def run_all(ctx, props, faults=1):
     w = vlib.workdir(ctx.pid.lower())
     k = 6 if thorough else 1
     plan = [("A", "random", 40 * k, {}), ("B", "random", 12 * k, {}), ("C", "random", 15 * k, {}),
-            ("D", "natural", 12 * k, {}), ("E", "natural", 8 * k, {}), ("A", "random", 12 * k, {"gd": 1}),
+            ("D", "natural", 12 * k, {}), ("E", "natural", 8 * k, {}), ("A", "random", 12 * k, {"gd": 1}), ("U", "random", 20 * k, {"gd": 1, "users": 3}),
             # sizes exactly at and one past the chunk-count limit, remainders adding up to the limit / one more
             ("A", "limits", 1, {}), ("G", "limits", 1, {}), ("C", "limits", 1, {}),
             # every single store call failing in turn (nothing stored / stored then failed / failing at finalize)
@@ -99,7 +102,8 @@ def run_all(ctx, props, faults=1):
     ctx.notes["configurations"] = {k2: CONFIGS[k2] for k2 in sorted({p[0] for p in plan})}
     # vacuity: the interesting branches must have been exercised
     need = ["DdDecision:dedup", "DdDecision:dedup:local", "DdDecision:prevented", "DdDecision:new", "DdCut",
-            "UpCompletion:merge", "UpCompletion:cut", "UpCompletion:swap", "UpPutEnd:ok", "UpPutEnd:exists", "UpDownload"]
+            "UpCompletion:merge", "UpCompletion:cut", "UpCompletion:swap", "UpPutEnd:ok", "UpPutEnd:exists", "UpDownload",
+            "UpGlobalQuery:hit", "UpGlobalQuery:none"]
     missing = [n for n in need if counts.get(n, 0) == 0]
     if missing:
         raise vlib.ToolError("vacuity: branches never exercised by the drivers: %s" % missing)
